@@ -112,3 +112,31 @@ Theorem fe_set_b32_limit_correct : forall a0 a1 a2 a3 a4 a5 a6 a7 a8 a9 a10 a11 
     ret = (if be32 a0 a1 a2 a3 a4 a5 a6 a7 a8 a9 a10 a11 a12 a13 a14 a15 a16 a17 a18 a19 a20 a21 a22 a23 a24 a25 a26 a27 a28 a29 a30 a31 <? P256 then 1 else 0)).
 Proof. exact Kernel.FieldSetB32.fe_set_b32_limit_correct. Qed.
 Print Assumptions fe_set_b32_limit_correct.
+
+(* ---- 32-byte encodings of field elements and scalars (limb level): serialization of a normalized element, parsing and serialization of a scalar ---- *)
+Require Import Kernel.Scalar4x64 Kernel.FieldGetB32 Kernel.ScalarB32 Gen.fe_impl_get_b32 Gen.scalar_set_b32 Gen.scalar_get_b32.
+
+Theorem fe_get_b32_correct : forall n0 n1 n2 n3 n4,
+  0 <= n0 < 2^52 -> 0 <= n1 < 2^52 -> 0 <= n2 < 2^52 -> 0 <= n3 < 2^52 -> 0 <= n4 < 2^48 ->
+  fe_impl_get_b32_k n0 n1 n2 n3 n4 (fun r0 r1 r2 r3 r4 r5 r6 r7 r8 r9 r10 r11 r12 r13 r14 r15 r16 r17 r18 r19 r20 r21 r22 r23 r24 r25 r26 r27 r28 r29 r30 r31 =>
+    Forall (fun b => 0 <= b < 256) [r0; r1; r2; r3; r4; r5; r6; r7; r8; r9; r10; r11; r12; r13; r14; r15; r16; r17; r18; r19; r20; r21; r22; r23; r24; r25; r26; r27; r28; r29; r30; r31] /\
+    be32 r0 r1 r2 r3 r4 r5 r6 r7 r8 r9 r10 r11 r12 r13 r14 r15 r16 r17 r18 r19 r20 r21 r22 r23 r24 r25 r26 r27 r28 r29 r30 r31 = val5 n0 n1 n2 n3 n4).
+Proof. exact Kernel.FieldGetB32.fe_get_b32_correct. Qed.
+Print Assumptions fe_get_b32_correct.
+
+Theorem scalar_set_b32_correct : forall a0 a1 a2 a3 a4 a5 a6 a7 a8 a9 a10 a11 a12 a13 a14 a15 a16 a17 a18 a19 a20 a21 a22 a23 a24 a25 a26 a27 a28 a29 a30 a31,
+  0 <= a0 < 256 -> 0 <= a1 < 256 -> 0 <= a2 < 256 -> 0 <= a3 < 256 -> 0 <= a4 < 256 -> 0 <= a5 < 256 -> 0 <= a6 < 256 -> 0 <= a7 < 256 -> 0 <= a8 < 256 -> 0 <= a9 < 256 -> 0 <= a10 < 256 -> 0 <= a11 < 256 -> 0 <= a12 < 256 -> 0 <= a13 < 256 -> 0 <= a14 < 256 -> 0 <= a15 < 256 -> 0 <= a16 < 256 -> 0 <= a17 < 256 -> 0 <= a18 < 256 -> 0 <= a19 < 256 -> 0 <= a20 < 256 -> 0 <= a21 < 256 -> 0 <= a22 < 256 -> 0 <= a23 < 256 -> 0 <= a24 < 256 -> 0 <= a25 < 256 -> 0 <= a26 < 256 -> 0 <= a27 < 256 -> 0 <= a28 < 256 -> 0 <= a29 < 256 -> 0 <= a30 < 256 -> 0 <= a31 < 256 ->
+  scalar_set_b32_k a0 a1 a2 a3 a4 a5 a6 a7 a8 a9 a10 a11 a12 a13 a14 a15 a16 a17 a18 a19 a20 a21 a22 a23 a24 a25 a26 a27 a28 a29 a30 a31 (fun r0 r1 r2 r3 over =>
+    (0 <= r0 < 2^64 /\ 0 <= r1 < 2^64 /\ 0 <= r2 < 2^64 /\ 0 <= r3 < 2^64) /\
+    val4 r0 r1 r2 r3 = be32 a0 a1 a2 a3 a4 a5 a6 a7 a8 a9 a10 a11 a12 a13 a14 a15 a16 a17 a18 a19 a20 a21 a22 a23 a24 a25 a26 a27 a28 a29 a30 a31 mod N256 /\
+    over = (if N256 <=? be32 a0 a1 a2 a3 a4 a5 a6 a7 a8 a9 a10 a11 a12 a13 a14 a15 a16 a17 a18 a19 a20 a21 a22 a23 a24 a25 a26 a27 a28 a29 a30 a31 then 1 else 0)).
+Proof. exact Kernel.ScalarB32.scalar_set_b32_correct. Qed.
+Print Assumptions scalar_set_b32_correct.
+
+Theorem scalar_get_b32_correct : forall d0 d1 d2 d3,
+  0 <= d0 < 2^64 -> 0 <= d1 < 2^64 -> 0 <= d2 < 2^64 -> 0 <= d3 < 2^64 ->
+  scalar_get_b32_k d0 d1 d2 d3 (fun r0 r1 r2 r3 r4 r5 r6 r7 r8 r9 r10 r11 r12 r13 r14 r15 r16 r17 r18 r19 r20 r21 r22 r23 r24 r25 r26 r27 r28 r29 r30 r31 =>
+    Forall (fun b => 0 <= b < 256) [r0; r1; r2; r3; r4; r5; r6; r7; r8; r9; r10; r11; r12; r13; r14; r15; r16; r17; r18; r19; r20; r21; r22; r23; r24; r25; r26; r27; r28; r29; r30; r31] /\
+    be32 r0 r1 r2 r3 r4 r5 r6 r7 r8 r9 r10 r11 r12 r13 r14 r15 r16 r17 r18 r19 r20 r21 r22 r23 r24 r25 r26 r27 r28 r29 r30 r31 = val4 d0 d1 d2 d3).
+Proof. exact Kernel.ScalarB32.scalar_get_b32_correct. Qed.
+Print Assumptions scalar_get_b32_correct.
